@@ -287,3 +287,28 @@ Proof.
   exists refute_req, (regular_stack {| k_qs := false; k_hs := false; k_gql := GNone |}).
   vm_compute. repeat split.
 Qed.
+
+(* ---- sequential merges on both sides ---- *)
+Lemma sequential_merge_disciplined deep k1 k2 :
+  shadow_disciplined (shadow_seq deep k1 k2) = true /\
+  regular_disciplined (regular_seq deep k1 k2) = true /\
+  race_free hobj_eqb (shadow_seq deep k1 k2) = true /\ race_free hobj_eqb (regular_seq deep k1 k2) = true.
+Proof.
+  destruct deep, k1 as [[|] [|] [|[|]|[|]]], k2 as [[|] [|] [|[|]|[|]]]; vm_compute; repeat split.
+Qed.
+
+(* hence, by [noninterference]: an endpoint whose regular AND shadow pipelines are sequential
+   merges writing propagated values into their Params - the caller's goroutine (which runs the
+   whole regular sequential merge) reads exactly what it reads without the shadow side *)
+Lemma sequential_noninterference r d1 d2 k1 k2 k3 k4 sched s :
+  run hobj_eqb (init (shadowed_prog r (shadow_seq d1 k1 k2) (regular_seq d2 k3 k4)) (heap_of r)) sched = Some s ->
+  race_free hobj_eqb (shadowed_prog r (shadow_seq d1 k1 k2) (regular_seq d2 k3 k4)) = true /\
+  forall t, In t (pool s) -> tid t = [] ->
+    (log t ++ exp_log hobj_eqb (rem t) (shadow t))%list =
+    (clone_reads r ++ exp_log hobj_eqb (regular_seq d2 k3 k4) (heap_of r))%list.
+Proof.
+  intros Hrun.
+  destruct (sequential_merge_disciplined d1 k1 k2) as (Hs & _ & Hfs & _).
+  destruct (sequential_merge_disciplined d2 k3 k4) as (_ & Hr & _ & Hfr).
+  destruct (noninterference r _ _ sched s Hs Hr Hfs Hfr Hrun) as (A & B & _). split; assumption.
+Qed.
